@@ -69,7 +69,7 @@ type fev struct {
 	alts   []*lexd // leaf: alternative lexeme sequences collapse to (first,last) per alternative
 	firsts []*lexd
 	lasts  []*lexd
-	null   bool // leaf that may write nothing
+	null   bool     // leaf that may write nothing
 	types  []string // child: candidate node types
 	kids   []*fev
 	alt    []*fev
@@ -92,17 +92,17 @@ type fmode struct {
 var fmodes = []fmode{{"compact", false, true}, {"pretty", true, true}, {"pretty-nosemi", true, false}}
 
 type fusionModel struct {
-	c      *Ctx
-	t      *tables
-	g      *grammarModel
-	idStart, idPart bset
-	lex    map[string]*lexd
-	viaLex map[string]*lexd
-	trees  map[string]map[string][]*fev // mode -> node -> tree
-	sums   map[string]map[string]*fsum  // mode -> node -> summary
-	issues map[string][]string          // node -> extraction problems
+	c                                  *Ctx
+	t                                  *tables
+	g                                  *grammarModel
+	idStart, idPart                    bset
+	lex                                map[string]*lexd
+	viaLex                             map[string]*lexd
+	trees                              map[string]map[string][]*fev // mode -> node -> tree
+	sums                               map[string]map[string]*fsum  // mode -> node -> summary
+	issues                             map[string][]string          // node -> extraction problems
 	exprTypes, nodeTypesAll, stmtTypes []string
-	hazards []string // lexemes that are not tokens of the subset but open something in JavaScript (comments)
+	hazards                            []string // lexemes that are not tokens of the subset but open something in JavaScript (comments)
 }
 
 func (c *Ctx) fusionModel(t *tables, g *grammarModel) *fusionModel {
@@ -665,10 +665,10 @@ func (fm *fusionModel) summ(mode string, seq []*fev) (bool, map[string]*lexd, ma
 // ---- adjacency ------------------------------------------------------------------------------------
 
 type adjPair struct {
-	x, y   *lexd
-	from   string // label of the leaf that wrote x
-	to     string // label of the leaf that writes y
-	pos    token.Pos
+	x, y *lexd
+	from string // label of the leaf that wrote x
+	to   string // label of the leaf that writes y
+	pos  token.Pos
 }
 
 type openLast map[string]struct {
@@ -782,12 +782,12 @@ func (fm *fusionModel) fuses(x, y *lexd) (bool, string) {
 // ---- the writer's separator guard ---------------------------------------------------------------------
 
 type sepGuard struct {
-	pred     *ssa.Function // func(last, next byte) bool
-	method   *ssa.Function // the *CodeWriter method that consults pred and writes the space
-	writers  []string      // text-writing methods that call it before emitting
+	pred     *ssa.Function   // func(last, next byte) bool
+	method   *ssa.Function   // the *CodeWriter method that consults pred and writes the space
+	writers  []string        // text-writing methods that call it before emitting
 	modes    map[string]bool // output modes in which the guard is active ("compact", "pretty")
-	problems []string // the guard method itself is not in the recognised shape: never credited
-	notes    []string // text writers that do not consult it: lexemes written through them are not credited
+	problems []string        // the guard method itself is not in the recognised shape: never credited
+	notes    []string        // text writers that do not consult it: lexemes written through them are not credited
 	pos      token.Pos
 }
 
